@@ -495,3 +495,27 @@ RECIPES += [
                 form = 1
 ''', "wtdmig symmetric test in a local predicate with an early return"),
 ]
+
+RECIPES += [
+    ("C13", "break", ["C13-R3"], B, '''                        mat[ri, ci] = real
+                        if form == 6:
+                            mat[ci, ri] = real
+''', '''                        mat[ci, ri] = real
+                        if form == 6:
+                            mat[ri, ci] = real
+''', "rddmig stores the transposed entry"),
+    ("C13", "break", ["C13-R3"], B, '''                        mat[ri, ci] = val
+                        if form == 6:
+                            mat[ci, ri] = val
+''', '''                        mat[ri, ci] = val
+                        if form != 6:
+                            mat[ci, ri] = val
+''', "rddmig mirrors every form but 6"),
+    ("C13", "break", ["C13-R1"], B, '''    if length != 8 and length != 16:
+        raise ValueError(''', '''    if length != 8 or length != 16:
+        raise ValueError(''', "wtgrids guard that nothing passes"),
+    ("C13", "break", ["C13-R3"], B, '''                            num_str = num_str.replace("E", "D")''', '''                            num_str = num_str.replace("D", "E")''', "wtdmig D exponent replacement reversed"),
+    ("C13", "neutral", [], B, '''        if c < 8:
+            v = np.hstack''', '''        if c <= 8:
+            v = np.hstack''', "rdgrids zero-width padding at exactly 8 columns"),
+]
